@@ -117,6 +117,15 @@ def sk_as4(ctx, s):
                   [K.prefix(ctx, 'n0', 3, False)])
 
 
+def sk_as4_first(ctx, s):
+    """as sk_as4 with AS4_PATH sent BEFORE AS_PATH: RFC 4271 5 'the receiver MUST be prepared to handle path attributes in any
+    order'; RFC 6793 4.2.3 merges whatever the order"""
+    return K.body([], [K.a_origin(ctx, ext=False), K.a_nexthop(ctx, ext=False),
+                       K.a_aspath(ctx, segs=((2, 2),), asn4=True, code=17, name='as4path', flags=0xC0, partial=True, ext=False),
+                       K.a_aspath(ctx, segs=((2, 3),), asn4=False, ext=False)],
+                  [K.prefix(ctx, 'n0', 3, False)])
+
+
 def sk_as4_longer(ctx, s):
     """AS4_PATH longer than AS_PATH: must be ignored"""
     return K.body([], [K.a_origin(ctx, ext=False), K.a_aspath(ctx, segs=((2, 1),), asn4=False, ext=False), K.a_nexthop(ctx, ext=False),
@@ -171,7 +180,7 @@ def sk_eor_mp(ctx, s):
 SKELETONS = {
     'basic': (sk_basic, ('asn4', 'asn2', 'addpath')), 'withdraw': (sk_withdraw, ('asn4', 'addpath')), 'mixed': (sk_mixed, ('asn4', 'addpath')),
     'attrs1': (sk_attrs1, ('asn4', 'asn2')), 'attrs2': (sk_attrs2, ('asn4',)), 'unknown': (sk_unknown, ('asn4',)),
-    'aspath2': (sk_aspath2, ('asn4', 'asn2')), 'as4': (sk_as4, ('asn2',)), 'dup': (sk_dup, ('asn4',)), 'as4-longer': (sk_as4_longer, ('asn2',)), 'as4-equal': (sk_as4_equal, ('asn2',)),
+    'aspath2': (sk_aspath2, ('asn4', 'asn2')), 'as4': (sk_as4, ('asn2',)), 'as4-first': (sk_as4_first, ('asn2',)), 'dup': (sk_dup, ('asn4',)), 'as4-longer': (sk_as4_longer, ('asn2',)), 'as4-equal': (sk_as4_equal, ('asn2',)),
     'mpreach': (sk_mpreach, ('asn4', 'addpath')), 'mpreach32': (sk_mpreach32, ('asn4',)), 'mpunreach': (sk_mpunreach, ('asn4', 'addpath')),
     'mpboth': (sk_mpboth, ('asn4', 'addpath')), 'eor4': (sk_eor4, ('asn4',)), 'eor-mp': (sk_eor_mp, ('asn4',)),
 }
@@ -502,7 +511,7 @@ def units(tier):
             continue
         for s in sessions:
             cov = ['well-formed', 'rib-in'] if not skel.startswith('eor') else ['well-formed', 'eor']
-            if skel in ('as4', 'as4-equal'):
+            if skel in ('as4', 'as4-equal', 'as4-first'):
                 cov.append('as4-merge')
             if skel == 'unknown':
                 cov.append('unknown-transitive-kept')
